@@ -6,10 +6,10 @@ Definition as_layout (v : val) : layout :=
   let z := as_int v in if z =? 0 then LDefault else if z =? 1 then LReverse else LReverseList.
 Definition as_info (v : val) : info_style :=
   let z := as_int v in if z =? 0 then IDefault else if z =? 1 then IInline else if z =? 2 then IHidden else IInlineRight.
-(* [w, h, layout, info, sep, [header...], [hlines...], multi] *)
+(* [w, h, layout, info, sep, [header...], [hlines...], multi, tabstop] *)
 Definition as_cfg (v : val) : cfg :=
   mkCfg (as_nat (arg v 0)) (as_nat (arg v 1)) (as_layout (arg v 2)) (as_info (arg v 3)) (as_bool (arg v 4))
-        (as_strs (arg v 5)) (as_strs (arg v 6)) (as_int (arg v 7)).
+        (as_strs (arg v 5)) (as_strs (arg v 6)) (as_int (arg v 7)) (Nat.max 1 (as_nat (arg v 8))).
 Definition as_match (v : val) : nat * str := (as_nat (arg v 0), as_str (arg v 1)).
 Definition as_nats (v : val) : list nat := map as_nat (as_list v).
 (* [query, [[index, text]...], total, cy, off, [selected index...]] *)
@@ -22,6 +22,9 @@ Definition as_reqs (v : val) : reqs :=
 Definition as_upd (v : val) : upd :=
   mkUpd (as_str (arg v 6)) (as_str (arg v 0)) (map as_match (as_list (arg v 1))) (as_nat (arg v 2)) (as_nat (arg v 3)) (as_nats (arg v 4))
         (as_reqs (arg v 5)).
+
+Definition as_mrows (v : val) : mrows :=
+  mkMR (as_bool (arg v 0)) (as_bool (arg v 1)) (as_str (arg v 2)) (as_str (arg v 3)).
 
 Definition vrows (rs : list row) : val := VL (map vstr rs).
 Definition as_rows (v : val) : list row := map as_str (as_list v).
@@ -43,4 +46,10 @@ Definition dispatch_render (op : Z) (a : val) : option val :=
   else if op =? 1504 then   (* spec on a captured screen: [cfg, view, rows] -> failing clauses *)
     Some (VL (map VI (check_faithful (as_cfg (arg a 0)) (as_view (arg a 1)) (as_rows (arg a 2)))))
   else if op =? 1505 then Some (vnat (max_items (as_cfg a)))
+  else if op =? 1506 then   (* multi-row items: [cfg, [wrap, multiline, sign, marks], view, rows] -> [] or [6, best offset, differing rows] *)
+    Some (VL (map VI (check_mrows (as_cfg (arg a 0)) (as_mrows (arg a 1)) (as_view (arg a 2)) (as_rows (arg a 3)))))
+  else if op =? 1507 then   (* [cfg, mode, view] -> [[window row, expected text] per list slot] for offset v_off *)
+    let c := as_cfg (arg a 0) in let v := as_view (arg a 2) in
+    let ar := mrows_area c (as_mrows (arg a 1)) v (v_off v) in
+    Some (VL (map (fun i => VL [vnat (list_row c i); vstr (nth i ar [])]) (seq 0 (max_items c))))
   else None.
